@@ -8,3 +8,4 @@ INVARIANT ViewShape
 INVARIANT Restriction
 INVARIANT ProjectionAgrees
 INVARIANT InsideIsComplete
+INVARIANT AlgebraLaws
